@@ -283,8 +283,9 @@ pub fn corr(ctx: &mut Ctx) {
                 out = crate::front::rebuild(&list);
             }
         }
-        // (only if the default run really returns it unchanged)
-        match run_case(&out, &HOpts::from_preset(2)) { Outcome::Ok(b) if b == out => out, _ => improvable.1.clone() }
+        // (only if the default run really finds nothing strictly smaller - judged by size, not by whether the call hands the
+        // very bytes back: that is C04's clause, and a file stays 'not improvable' when it is broken)
+        match run_case(&out, &HOpts::from_preset(2)) { Outcome::Ok(b) if b.len() >= out.len() => out, _ => improvable.1.clone() }
     };
     let inputs: [(&str, Vec<u8>); 4] = [
         ("improvable", improvable.0.clone()),
